@@ -268,17 +268,51 @@ def run(rep: Report, tier: str) -> None:
     wheres = [n for n in walk_no_nested(bif.node) if isinstance(n, ast.Call) and isinstance(n.func, ast.Attribute) and n.func.attr == "where" and n.args]
     if not wheres or set(side_of.values()) != {"then", "else"}:
         raise AnalysisError("_build_dataset_if: join-id variables / builder.where filters not found (anchor changed)")
+    HL, HR = sqlx.HOLE_L, sqlx.HOLE_R
+
+    def _inline(text: str, holes: List[str], scenario: Set[str], depth: int = 0) -> str:
+        """replace holes that are locals defined from the join-id variables (e.g. then_hit = f"{then_join_id} IS NOT NULL" if
+        then_join_id else "TRUE") by their definition under `scenario` (the set of sides that are dataset branches)"""
+        for h in set(holes):
+            if h in side_of or depth > 3:
+                continue
+            ds_ = [n.value for n in walk_no_nested(bif.node) if isinstance(n, ast.Assign) and any(isinstance(t, ast.Name) and t.id == h for t in n.targets)]
+            if len(ds_) != 1:
+                continue
+            d = ds_[0]
+            if isinstance(d, ast.IfExp) and isinstance(d.test, ast.Name) and d.test.id in side_of:
+                d = d.body if side_of[d.test.id] in scenario else d.orelse
+            sk2 = sqlx.skeleton_of(d)
+            if not sk2 or not any(x in side_of for x in sk2[1]) and sk2[1]:
+                continue
+            if not sk2[1] and sk2[0].strip().upper() not in ("TRUE", "FALSE"):
+                continue
+            text = text.replace(f"{HL}{h}{HR}", "(" + _inline(sk2[0], sk2[1], scenario, depth + 1) + ")")
+        return text
+    jobs: List[Tuple[ast.AST, str, Set[str]]] = []
     for w in wheres:
         sk = sqlx.skeleton_of(w.args[0])
         if not sk:
             raise AnalysisError("_build_dataset_if: where() argument is not a string expression")
-        text, holes = sk
+        text0, holes0 = sk
+        indirect = [h for h in set(holes0) if h not in side_of]
+        if len(indirect) <= 1:
+            jobs.append((w, text0, {side_of[h] for h in set(holes0) if h in side_of}))
+        else:
+            seen_txt = set()
+            for scenario in ({"then", "else"}, {"then"}, {"else"}):
+                t2 = _inline(text0, holes0, scenario)
+                if (t2, tuple(sorted(scenario))) not in seen_txt:
+                    seen_txt.add((t2, tuple(sorted(scenario))))
+                    jobs.append((w, t2, set(scenario)))
+    for w, text, scen in jobs:
+        holes = re.findall(re.escape(HL) + r"(.*?)" + re.escape(HR), text)
         tree = sqlexpr.parse(text)
         cond_holes = [h for h in set(holes) if h not in side_of]
         if len(cond_holes) != 1:
             raise AnalysisError(f"_build_dataset_if filter `{text}`: condition hole not identified ({cond_holes})")
         ch = cond_holes[0]
-        present = {side_of[h] for h in set(holes) if h in side_of}
+        present = {side_of[h] for h in set(holes) if h in side_of} | (scen if len(jobs) > len(wheres) else set())
         for C in (True, False, None):
             for t_hit in ((True, False) if "then" in present else (True,)):
                 for e_hit in ((True, False) if "else" in present else (True,)):
@@ -298,6 +332,27 @@ def run(rep: Report, tier: str) -> None:
                                         f"{'present' if e_hit else 'absent'}: datapoint is {'kept' if got is True else 'dropped'}, VTL (null → else) "
                                         f"says {'kept' if want else 'dropped'}"))
     rep.analysed = {"registry_entries": len(reg), "semantic_tokens": len(sem), "macros": len(macros), "strictness_obligations": nstrict}
+    # ---- R01.6: the structure the transpiler infers for an intermediate DS op DS result == the interpreter's (finite model) ----
+    rep.rule("R01.6", "intermediate structure of a dataset-dataset operator: StructureVisitor agrees with semantic analysis on identifiers and measures (finite model, both evaluated from source)")
+    from sa import structmodel as _sm
+    _M = _sm.Model(P)
+    _n = 0
+    for _lab, _li, _ri, _lm, _rm in _sm.BINARY_SHAPES:
+        _L, _R = _M.ds("DS_1", _li, _lm), _M.ds("DS_2", _ri, _rm)
+        _a = _M.interpreter_binary("vtlengine.Operators.Numeric.BinPlus", _L, _R)
+        _L2, _R2 = _M.ds("DS_1", _li, _lm), _M.ds("DS_2", _ri, _rm)
+        _b = _M.visitor_binary(_L2, _R2)
+        _n += 1
+        rep.instance("R01.6", f"ds-ds/{_lab}", nontrivial=True, sample={"interpreter": _a[1].summary() if _a[0] == "ok" else _a, "structure_visitor": _b[1].summary() if _b[0] == "ok" else _b})
+        if _a[0] != "ok":
+            continue  # rejected by semantic analysis: no intermediate structure is needed
+        if _b[0] != "ok" or _a[1].summary() != _b[1].summary():
+            _f = P.func(_sm.SV + "._build_ds_ds_binop_structure")
+            rep.add(Finding("R01.6", f"R01.6/ds-ds/{_lab}", _f.module.rel, _f.node.lineno, _f.qualname,
+                            f"for DS_1(ids {_li}, measures {_lm}) op DS_2(ids {_ri}, measures {_rm}) semantic analysis gives identifiers/measures {_a[1].summary()} but the "
+                            f"transpiler's structure for the same intermediate result is {_b[1].summary() if _b[0] == 'ok' else _b}: an enclosing operator joins on / projects the wrong "
+                            f"identifiers (nested expressions such as (DS_1 + DS_2) * DS_3 give spurious or missing datapoints)"))
+    rep.floor("R01.6 shapes", _n, 6)
     rep.assumptions = ["DuckDB scalar functions and arithmetic/comparison operators return NULL on a NULL argument; COALESCE/IS NULL/AND/OR/CASE "
                        "follow SQL semantics; error() never returns", "VTL semantics encoded in the checker: null propagation for the listed "
                        "operator classes, Kleene tables for and/or, null-strict xor/not"]
